@@ -8,8 +8,12 @@ Record wf_cfg (c : cfg) : Prop := {
   wf_k : (c_k c <= 32)%nat;
   wf_pre : 0 <= c_pre c < cap c;
   wf_single : c_wm c = WSingle -> (c_nw c <= 1)%nat;
+  (* a reader's first index is ANY 32-bit index whose ring position has been written (or is the cursor
+     position itself): late joiners, readers at different residues; rd_start is the logical position
+     of that message, c_pre - cap < rd_start <= c_pre holds by construction (not lapped) *)
   wf_idx : forall t, is_reader c t = true ->
-           0 <= c_idx0 c t < two32 /\ c_idx0 c t mod cap c = c_pre c mod cap c;
+           0 <= c_idx0 c t < two32 /\ (c_rm c <> ROnce -> 0 <= rd_start c t);
+  (* (read-once readers ignore the index) *)
   (* a message whose value is the address of a payload object carries its own object *)
   wf_val : forall m, 0 <= c_val c m -> c_val c m = m;
 }.
